@@ -80,6 +80,7 @@ func runStress(c *lib.Case) {
 	t0 := time.Now()
 
 	var stop atomic.Bool
+	var workersDone atomic.Int32
 	var wg sync.WaitGroup
 	for w := 0; w < stressWorkers; w++ {
 		rng := rand.New(rand.NewSource(c.Rng.Int63()))
@@ -87,6 +88,7 @@ func runStress(c *lib.Case) {
 		wg.Add(1)
 		go func() {
 			defer wg.Done()
+			defer workersDone.Add(1)
 			last := map[string]*inst{}
 			for i := 0; i < stressOps && !stop.Load(); i++ {
 				id := ids[rng.Intn(len(ids))]
@@ -153,10 +155,16 @@ func runStress(c *lib.Case) {
 	done := make(chan struct{})
 	go func() { wg.Wait(); close(done) }()
 
+	// Wait for the workers. A run that cannot finish is recognised
+	// structurally, not by a timeout: every worker is either done or inside an
+	// operation whose goroutine is parked directly in repository code, and the
+	// logical clock has not moved for 3 s (13 s when a Close() is among them:
+	// its internal closeTimeout is the only timer in ocache).
 	finished := false
-	deadline := time.After(120 * time.Second)
-	tick := time.NewTicker(20 * time.Millisecond)
+	deadline := time.After(300 * time.Second)
+	tick := time.NewTicker(250 * time.Millisecond)
 	defer tick.Stop()
+	lastClock, quiet := int64(-1), 0
 wait:
 	for {
 		select {
@@ -166,6 +174,7 @@ wait:
 		case <-tick.C:
 			m.mu.Lock()
 			np := len(m.panics)
+			clk := m.clock
 			m.mu.Unlock()
 			if np > 0 {
 				// the panic may have wedged an entry; workers parked on it never return
@@ -174,6 +183,30 @@ wait:
 					finished = true
 				case <-time.After(200 * time.Millisecond):
 				}
+				break wait
+			}
+			if clk != lastClock {
+				lastClock, quiet = clk, 0
+				continue
+			}
+			quiet++
+			if quiet < 12 {
+				continue
+			}
+			d := gates.Dump()
+			m.mu.Lock()
+			pending, blocked, hasClose := 0, 0, false
+			for gid, o := range m.byGoid {
+				pending++
+				if g := d[gid]; g != nil && g.Blocked && g.InRepo {
+					blocked++
+				}
+				if o.Kind == "Close" {
+					hasClose = true
+				}
+			}
+			m.mu.Unlock()
+			if pending > 0 && pending == blocked && pending+int(workersDone.Load()) == stressWorkers && (!hasClose || quiet >= 52) {
 				break wait
 			}
 		case <-deadline:
